@@ -98,6 +98,43 @@ theorem C04_iterate_exact (s : St) (hi : Inv s) (v : Nat) (vw : View) (hv : s.vi
   · simp only [step, onView, hv, vRead_eq, dbIterateKeys, hopen, iterKeysAll_eq, stopAfter_map]
     simp [stopAfter]
 
+/-- **Has ⇔ Get succeeds ⇔ the iterations report the key** — for every key, the zero-length key and keys carrying a
+zero-length value included (the model has one notion of "the entry exists": `aget … = some _`; nothing looks at the value).
+Through every view of an open store: `Has k` answers true iff `Get k` does not answer ErrKeyNotFound iff an unstopped
+`IterateKeys` over ANY prefix of `k` (in particular the empty one) in either direction reports `k` iff an unstopped `Iterate`
+reports `k` with the value `Get` returns. -/
+theorem C04_has_iff_get_iff_iterated (s : St) (hi : Inv s) (v : Nat) (vw : View) (hv : s.views.lookup v = some vw)
+    (hopen : s.db.closed = false) (k p : Bytes) (hp : hasPfx p k = true) (d : Dir) :
+    ((step s (.has v k)).2 = .bool true ↔ (step s (.get v k)).2 ≠ .notfound) ∧
+    ((step s (.has v k)).2 = .bool true ↔ ∃ l, (step s (.iterk v p d 0)).2 = .keys l ∧ k ∈ l) ∧
+    (∀ x, (step s (.get v k)).2 = .val x ↔ ∃ l, (step s (.iter v p d 0)).2 = .kvs l ∧ (k, x) ∈ l) := by
+  obtain ⟨hmem, _, hit, hik⟩ := C04_iterate_exact s hi v vw hv hopen p d 0
+  have hhas := C04_has_iff_get s v vw hv hopen k
+  have hget : (step s (.get v k)).2 = match aget (vw.realm ++ k) s.db.m with | some x => .val x | none => .notfound := by
+    simp only [step, onView, hv, vRead_eq, dbGet, hopen, Bool.false_eq_true, if_false]
+    cases aget (vw.realm ++ k) s.db.m <;> rfl
+  refine ⟨?_, ?_, ?_⟩
+  · rw [hhas]; simp
+  · rw [hhas, hik, hget]
+    simp only [if_true, Out.keys.injEq, exists_eq_left', List.mem_map]
+    constructor
+    · intro h
+      cases hg : aget (vw.realm ++ k) s.db.m with
+      | none => simp [hg] at h
+      | some x => exact ⟨(k, x), (hmem k x).mpr ⟨hg, hp⟩, rfl⟩
+    · rintro ⟨⟨k', x⟩, hm, rfl⟩
+      rw [((hmem k' x).mp hm).1]; simp
+  · intro x
+    rw [hit, hget]
+    simp only [if_true, Out.kvs.injEq, exists_eq_left']
+    constructor
+    · intro h
+      cases hg : aget (vw.realm ++ k) s.db.m with
+      | none => simp [hg] at h
+      | some y => simp [hg] at h; subst h; exact (hmem k y).mpr ⟨hg, hp⟩
+    · intro hm
+      rw [((hmem k x).mp hm).1]
+
 /-- **DeletePrefix / Clear remove exactly the keys carrying the prefix inside the realm**: a full
 key is gone iff it starts with `r ‖ p` (for `Clear`: with `r`), every other entry — in this realm,
 in overlapping realms, outside — keeps its value; handles are untouched. -/
